@@ -6,7 +6,7 @@ import Mathlib.Tactic.IntervalCases
 import Mathlib.Tactic.Linarith
 import WebpVerif.Lemmas.EncHuffCodes
 import WebpVerif.Lemmas.PrefixFree
-import WebpVerif.Lemmas.HuffTotal
+import WebpVerif.Lemmas.HuffShort
 
 /-!
 # C01 — VP8L decoding matches the lossless specification for every valid stream
@@ -234,10 +234,12 @@ theorem huffman_tree_accepts_valid (ls : List Nat) (hall : ∀ l ∈ ls, l ≤ 1
   Huff.build_total ls hall hn hv
 
 /-- **`HuffmanTree` = the specification's symbol decoder** (model level): accepted exactly when
-    valid, and then reading exactly the same symbols -/
+    valid, and then reading exactly the same symbols from EVERY bit string - including the last bits of
+    the data, where the reader peeks a zero-padded word and `consume` fails exactly when the
+    specification runs out of bits -/
 theorem huffman_tree_is_spec (ls : List Nat) (hall : ∀ l ∈ ls, l ≤ 15) (hn : ls.length ≤ 5000) :
     ((∃ t, Huff.build ls = .ok t) ∨ (∃ s, Huff.build ls = .single s) ↔ Prefix.validLengths ls = true) ∧
-    (Prefix.validLengths ls = true → ∀ bits : List Nat, (∀ b ∈ bits, b < 2) → 15 ≤ bits.length →
+    (Prefix.validLengths ls = true → ∀ bits : List Nat, (∀ b ∈ bits, b < 2) →
       Huff.readSym (Huff.build ls) bits = Prefix.decodeSymbol ls bits) := by
   constructor
   · constructor
@@ -245,9 +247,9 @@ theorem huffman_tree_is_spec (ls : List Nat) (hall : ∀ l ∈ ls, l ≤ 15) (hn
       · exact (huffman_tree_reads_spec ls hall hn t ht).1
       · exact (huffman_tree_single ls hall s hs).1
     · exact huffman_tree_accepts_valid ls hall hn
-  · intro hv bits hb hlen
+  · intro hv bits hb
     rcases huffman_tree_accepts_valid ls hall hn hv with ⟨t, ht⟩ | ⟨s, hs⟩
-    · exact (huffman_tree_reads_spec ls hall hn t ht).2 bits hb hlen
+    · exact Huff.build_ok_spec_all ls hall hn t ht bits hb
     · exact (huffman_tree_single ls hall s hs).2 bits
 
 -- non-vacuity: a complete code is accepted and read (the runtime tie exercises secondary trees
